@@ -461,6 +461,12 @@ func (m *Manager) TerminateSession(ctx context.Context, sessionID string, reason
 		m.mu.Unlock()
 		return fmt.Errorf("session not found: %s", sessionID)
 	}
+	if session.State == StateTerminating {
+		// Another caller is already tearing this session down; releasing its
+		// addresses a second time could free them under a new owner.
+		m.mu.Unlock()
+		return fmt.Errorf("session already terminating: %s", sessionID)
+	}
 
 	oldState := session.State
 	session.State = StateTerminating
